@@ -18,7 +18,15 @@
 // Protocol (see lean/Driver/C13.lean):
 //   words <w1> <w2> ...                       the harness' copy of the reserved-word list (driver checks it against its own)
 //   case <id> alloc / tree <n> <p|-> ... / q <scope> <kind> <desired|-> => <name|!e> / end
-//   case <id> export / u <position> <name> ... / c <where> <hex of comment> ... / x <exception text>  |  f <file> + v <line> ... / end
+//   case <id> export / u <position> <name> ... / c <where> <hex of comment> ... / x <exception text>  |
+//        n <kind> <name> ...   names carried by the objects of the circuit that is exported (read back after postprocess():
+//                              pins, non-empty entity groups and their instance names, clock / reset pins of the registers,
+//                              named signal and constant nodes, non-empty areas) — each must leave a trace in the text
+//        nx <kind> <name|->    an object of the circuit carries a name the generator never requested (front end lost/changed it)
+//        f <relative path> for EVERY regular file below the scratch directory (recursively) + v <line> ... for *.vhd / *.vhdl
+//        g <relative path> + w <line> ... | gx <exception>   (one case in three) the same circuit exported once more,
+//                              one file per entity / package, into the sub-directory `split`
+//        end
 //   case <id> comment / k <entity|block|process|code> <indentation> <hex name|-> <hex comment|-> <hex output|-> ... / end
 #include <gatery/pch.h>
 #include <gatery/frontend.h>
@@ -30,7 +38,12 @@
 #include <gatery/hlim/Circuit.h>
 #include <gatery/hlim/Clock.h>
 #include <gatery/hlim/coreNodes/Node_Pin.h>
+#include <gatery/hlim/coreNodes/Node_Signal.h>
+#include <gatery/hlim/coreNodes/Node_Constant.h>
+#include <gatery/hlim/coreNodes/Node_Register.h>
+#include <gatery/hlim/NodeGroup.h>
 #include "common.h"
+#include <set>
 #include <filesystem>
 #include <fstream>
 #include <iostream>
@@ -297,8 +310,10 @@ struct NameSource {
 			n = k < 5 ? fixed : k == 5 ? lowerS(fixed) : k == 6 ? upperS(fixed) : mixedS(fixed, *r);
 		}
 		*log << "u " << position << ' ' << n << '\n';
+		requested.insert({position, n});
 		return n;
 	}
+	std::set<std::pair<std::string, std::string>> requested;
 	bool comments = false;       // attach comments in this design
 	// with probability num/den a comment for `where` (logged), else nothing
 	std::optional<std::string> comment(const char *where, unsigned num, unsigned den) {
@@ -567,6 +582,78 @@ struct OverrideGen {
 	}
 };
 
+// names carried by the objects of the circuit that is about to be exported (after postprocess(): culled objects are gone)
+static bool groupHasNodes(const hlim::NodeGroup *g) {
+	if (!g->getNodes().empty()) return true;
+	for (auto &c : g->getChildren()) if (groupHasNodes(c.get())) return true;
+	return false;
+}
+static void circuitNames(hlim::Circuit &circuit, const NameSource &names, std::ostream &o) {
+	std::set<std::pair<std::string, std::string>> out, notRequested;
+	auto req = [&](const char *pos, const std::string &n) { return names.requested.count({pos, n}) != 0; };
+	for (auto &up : circuit.getNodes()) {
+		hlim::BaseNode *n = up.get();
+		if (auto *pin = dynamic_cast<hlim::Node_Pin*>(n)) {
+			if (pin->isInputPin() || pin->isOutputPin()) {
+				out.insert({"pin", pin->getName()});
+				if (!req("pin", pin->getName())) notRequested.insert({"pin", pin->getName()});
+			}
+		} else if (auto *sig = dynamic_cast<hlim::Node_Signal*>(n)) {
+			if (sig->hasGivenName() && sig->getOutputConnectionType(0).width > 0) {
+				out.insert({"sig", sig->getName()});
+				// pinIn().setName(n) / setName(constant, n) also name a signal node
+				if (!req("sig", sig->getName()) && !req("const", sig->getName()) && !req("pin", sig->getName())) notRequested.insert({"sig", sig->getName()});
+			}
+		} else if (auto *cst = dynamic_cast<hlim::Node_Constant*>(n)) {
+			if (cst->hasGivenName()) out.insert({"const", cst->getName()});
+		} else if (auto *reg = dynamic_cast<hlim::Node_Register*>(n)) {
+			hlim::Clock *clk = reg->getClocks()[0];
+			if (clk) {
+				std::string cn = clk->getClockPinSource()->getName();
+				out.insert({"clk", cn});
+				if (!req("clk", cn)) notRequested.insert({"clk", cn});
+				if (reg->getNonSignalDriver(hlim::Node_Register::RESET_VALUE).node != nullptr && clk->getRegAttribs().resetType != hlim::RegisterAttributes::ResetType::NONE)
+					out.insert({"rst", clk->getResetPinSource()->getResetName()});
+			}
+		}
+	}
+	std::function<void(const hlim::NodeGroup*)> walk = [&](const hlim::NodeGroup *g) {
+		for (auto &c : g->getChildren()) {
+			if (groupHasNodes(c.get())) {
+				if (c->getGroupType() == hlim::NodeGroupType::ENTITY) {
+					out.insert({"ent", c->getName()});
+					out.insert({"inst", c->getInstanceName()});
+					if (!req("ent", c->getName())) notRequested.insert({"ent", c->getName()});
+				} else if (c->getGroupType() == hlim::NodeGroupType::AREA)
+					out.insert({"area", c->getName()});
+			}
+			walk(c.get());
+		}
+	};
+	walk(circuit.getRootNodeGroup());
+	for (auto &e : out) o << "n " << e.first << ' ' << (e.second.empty() ? "-" : e.second) << '\n';
+	for (auto &e : notRequested) o << "nx " << e.first << ' ' << (e.second.empty() ? "-" : e.second) << '\n';
+}
+
+static void dumpTree(const std::filesystem::path &dir, const std::filesystem::path &skip, const char *ftag, const char *ltag) {
+	std::vector<std::filesystem::path> files;
+	for (auto it = std::filesystem::recursive_directory_iterator(dir); it != std::filesystem::recursive_directory_iterator(); ++it) {
+		if (!skip.empty() && it->path() == skip) { it.disable_recursion_pending(); continue; }
+		if (it->is_regular_file()) files.push_back(it->path());
+	}
+	std::sort(files.begin(), files.end());
+	for (auto &f : files) {
+		std::cout << ftag << ' ' << std::filesystem::relative(f, dir).string() << '\n';
+		if (f.extension() != ".vhd" && f.extension() != ".vhdl") continue;
+		std::ifstream in(f);
+		std::string line;
+		while (std::getline(in, line)) {
+			if (!line.empty() && line.back() == '\r') line.pop_back();
+			std::cout << ltag << ' ' << line << '\n';
+		}
+	}
+}
+
 static void exportCase(const std::string &id, Rng r, NamePool *pool, const std::string &fixed, int directed = 0) {
 	std::ostringstream log;
 	NameSource names;
@@ -576,7 +663,9 @@ static void exportCase(const std::string &id, Rng r, NamePool *pool, const std::
 	std::filesystem::path dir = std::filesystem::path("/var/tmp") / ("gv_c13_" + std::to_string(getpid()));
 	std::filesystem::remove_all(dir);
 	std::filesystem::create_directories(dir);
-	std::string failure;
+	std::string failure, splitFailure;
+	bool split = r.chance(1, 3);
+	std::ostringstream circuitLog;
 	try {
 		DesignScope design;
 		if (directed == 2) {
@@ -590,29 +679,39 @@ static void exportCase(const std::string &id, Rng r, NamePool *pool, const std::
 			g.build();
 		}
 		design.postprocess();
-		vhdl::VHDLExport vhdl(dir / "design.vhd", true);
-		vhdl(design.getCircuit());
+		circuitNames(design.getCircuit(), names, circuitLog);
+		{
+			vhdl::VHDLExport vhdl(dir / "design.vhd", true);
+			vhdl(design.getCircuit());
+		}
+		if (split) {
+			// the same circuit once more, one file per entity / package (destination without extension, OutputMode::AUTO)
+			try {
+				std::filesystem::create_directories(dir / "split");
+				vhdl::VHDLExport vhdl2(dir / "split", true);
+				vhdl2(design.getCircuit());
+			} catch (const std::exception &e) {
+				splitFailure = e.what();
+				for (auto &c : splitFailure) if (c == '\n' || c == '\r') c = ' ';
+				if (splitFailure.size() > 300) splitFailure.resize(300);
+				if (splitFailure.empty()) splitFailure = "?";
+			}
+		}
 	} catch (const std::exception &e) {
 		failure = e.what();
 		for (auto &c : failure) if (c == '\n' || c == '\r') c = ' ';
 		if (failure.size() > 300) failure.resize(300);
+		if (failure.empty()) failure = "?";
 	}
 	std::cout << "case " << id << " export\n" << log.str();
 	if (!failure.empty())
 		std::cout << "x " << failure << '\n';
 	else {
-		std::vector<std::filesystem::path> files;
-		for (auto &e : std::filesystem::directory_iterator(dir))
-			if (e.path().extension() == ".vhd" || e.path().extension() == ".vhdl") files.push_back(e.path());
-		std::sort(files.begin(), files.end());
-		for (auto &f : files) {
-			std::cout << "f " << f.filename().string() << '\n';
-			std::ifstream in(f);
-			std::string line;
-			while (std::getline(in, line)) {
-				if (!line.empty() && line.back() == '\r') line.pop_back();
-				std::cout << "v " << line << '\n';
-			}
+		std::cout << circuitLog.str();
+		dumpTree(dir, dir / "split", "f", "v");
+		if (split) {
+			if (!splitFailure.empty()) std::cout << "gx " << splitFailure << '\n';
+			else { std::cout << "split\n"; dumpTree(dir / "split", {}, "g", "w"); }
 		}
 	}
 	std::cout << "end\n";
